@@ -53,6 +53,9 @@ const (
 	QUIT
 )
 
+// errMessageTooLarge is returned by readDataBlock when DATA exceeds config.MaxMessageBytes.
+var errMessageTooLarge = errors.New("maximum message size exceeded")
+
 // fromRegex captures the from address and optional parameters.  Matches FROM, while accepting '>'
 // as quoted pair and in double quoted strings (?i) makes the regex case insensitive, (?:) is
 // non-grouping sub-match.  Accepts empty angle bracket value in options for 'AUTH=<>'.
@@ -554,6 +557,12 @@ func (s *Session) mailHandler(cmd string, arg string) {
 func (s *Session) dataHandler() {
 	s.send("354 Start mail input; end with <CRLF>.<CRLF>")
 	msgBuf, err := s.readDataBlock()
+	if err == errMessageTooLarge {
+		s.send("552 Maximum message size exceeded")
+		s.logger.Warn().Msgf("Max message size exceeded while in DATA")
+		s.reset()
+		return
+	}
 	if err != nil {
 		if netErr, ok := err.(net.Error); ok {
 			if netErr.Timeout() {
@@ -621,9 +630,19 @@ func (s *Session) readDataBlock() ([]byte, error) {
 	if err := s.conn.SetReadDeadline(s.nextDeadline()); err != nil {
 		return nil, err
 	}
-	b, err := s.text.ReadDotBytes()
+	// Read at most one byte more than permitted, so oversized messages can be detected without
+	// buffering them.
+	r := s.text.DotReader()
+	b, err := io.ReadAll(io.LimitReader(r, int64(s.config.MaxMessageBytes)+1))
 	if err != nil {
 		return nil, err
+	}
+	if len(b) > s.config.MaxMessageBytes {
+		// Discard the remainder of the message, up to the terminating dot.
+		if _, err := io.Copy(io.Discard, r); err != nil {
+			return nil, err
+		}
+		return nil, errMessageTooLarge
 	}
 	if s.debug {
 		fmt.Printf("%04d   Received %d bytes\n", s.id, len(b))
